@@ -59,6 +59,18 @@ class EqV(VSub):
         return 17
 
 
+class TwinV(VSub):
+    """a vertex class with value semantics on an attribute set AFTER construction: two instances given the same `twin_key`
+    compare equal from then on (a vertex renamed after insertion).  Never drawn by the generators: a render leg turns finished
+    VSub vertices into twins (`__class__` assignment) once the graph is built, so the structure operations - which use `in` -
+    never meet them; the exporters must go on naming vertices by identity"""
+    def __eq__(self, other):
+        return isinstance(other, TwinV) and vars(other).get("twin_key", id(other)) == vars(self).get("twin_key", id(self))
+
+    def __hash__(self):
+        return hash(vars(self).get("twin_key", id(self)))
+
+
 def _local_vertex_class():
     class LocalV(VSub):
         """a vertex class defined inside a function, written the way the library's own documentation shows
@@ -130,6 +142,7 @@ CLS_KIND[HashV] = "KVertexSub"
 CLS_KIND[LocalV] = "KVertexSub"
 CLS_KIND[MainV] = "KVertexSub"
 CLS_KIND[EqV] = "KVertexSub"
+CLS_KIND[TwinV] = "KVertexSub"
 CLS_KIND[LocalAbcV] = "KVertexSub"
 # class choice of a generated NV op: plain Vertex, a subclass, a subclass whose instances are FALSY (legal: the library
 # must test `is None`, never truthiness)
